@@ -140,7 +140,7 @@ def main(tier, seed):
     t0 = time.time()
     rep = C.Reporter(PID, tier, seed)
     C.build(['num'])
-    shards, per = (32, 1250) if tier == 'quick' else (96, 4200)
+    shards, per = (32, 1250) if tier == 'quick' else (160, 12500)
     bad, hist, samples, n = N.run_sharded(MOD, tier, seed, shards, per)
     for c, why in bad:
         rep.violation('num:' + c['script'], 'Num result differs from the exact rational / is not canonical',
